@@ -22,6 +22,8 @@ ENGINE = "tasks"
 LEVEL = "exploration"
 TECHNIQUE = "deterministic simulation: seeded interleaving of client operations on a real lock/semaphore vs reference FIFO capacity model"
 QUICK_RUNS = 48000
+TWIN_P = 0.1   # a tenth of the runs drive two primitives one after the other (see detsim.runner._run_scenario)
+USES_DEPTH = True   # thorough tier: history length bound scales with sim.depth (1..3) beyond the quick tier\'s run indices
 BATCH = 400
 COMPONENTS = {"real": ["twisted.internet.defer.DeferredLock", "twisted.internet.defer.DeferredSemaphore",
                        "twisted.internet.defer._ConcurrencyPrimitive.run", "twisted.internet.defer.Deferred",
@@ -79,7 +81,7 @@ F_MODES = [("value", 4), ("raise", 3), ("pending", 6), ("fired", 2), ("failed", 
 def run(sim):
     limit = sim.draw_choice([1, 1, 2, 3], "limit")
     is_lock = limit == 1 and not sim.draw_bool(0.4, "sem1")
-    nops = sim.draw_int(3, 40, "nops")
+    nops = sim.draw_int(3, 40 * sim.depth, "nops")
     reent_p = sim.draw_choice([0.0, 0.0, 0.25, 0.5], "reentrancy")
     sim.config = {"primitive": "lock" if is_lock else "semaphore", "limit": limit, "nops": nops, "reentrant": reent_p}
     prim = defer.DeferredLock() if is_lock else defer.DeferredSemaphore(limit)
@@ -335,7 +337,7 @@ def run(sim):
         return sim.draw_weighted(ops, "op")
 
     def do_op(op):
-        sim.step(400)
+        sim.step(400 * sim.depth)
         {"acquire": op_acquire, "run": op_run, "release": op_release, "resolve": op_resolve, "cancel": op_cancel}[op]()
 
     for _ in range(nops):
